@@ -16,7 +16,7 @@ import (
 
 func init() {
 	register(&Rule{
-		Name: "client-block-state", Props: []string{"C02", "C09", "C03"}, Engine: "AST", Floor: 11,
+		Name: "client-block-state", Props: []string{"C02", "C09", "C03", "C20"}, Engine: "AST", Floor: 11,
 		Doc: "headerBlock.open starts a block exactly on a non-CONTINUATION frame (no carried bytes, no fields, no regular field seen, END_STREAM as the frame says) and returns the carried bytes followed by the frame's fragment; Conn.nextField tells the decoder the block position, keeps the bytes of a field cut by the frame boundary exactly when no END_HEADERS was seen (handing back an empty field), and makes every other decoding error a connection error; Conn.skipFields decodes its whole input with it, counting fields, and returns the reason it was given; readHeader decodes from open() with nextField, counts each field before it judges it and turns a response away only through skipFields with its cursor; skipHeaderBlock does the same for a block nobody waits for; a response ends with DATA+END_STREAM or with the END_HEADERS of a block whose HEADERS carried END_STREAM; a response turned away is reset with PROTOCOL_ERROR unless the server reset it, and a connection-class error stops the read loop",
 		Run: ruleClientBlock,
 	})
@@ -45,6 +45,12 @@ func (p *Prog) clientBlockOK() (bool, []string) {
 					case "hb.carry=hb.carry[:0]", "hb.fields=0", "hb.regularSeen=false", "hb.endStream=fr.Flags().Has(FlagEndStream)":
 					default:
 						if !(strings.HasPrefix(t, "hb.") && strings.HasSuffix(t, "=false")) {
+							okStart = false
+						}
+						// ... of the block, not a mark its caller has just set for it: what
+						// readStreamOwned stores into the block before it hands the frame on
+						// (whether the block is the trailers) must survive open
+						if fld := strings.TrimSuffix(strings.TrimPrefix(t, "hb."), "=false"); p.blockFieldsSetByCaller()[fld] {
 							okStart = false
 						}
 					}
@@ -391,4 +397,38 @@ func init() {
 			r.check(clrOK, "the deadline comes off after the handshake and not before", p.pos(dd.Pos()), "err = nc.Handshake(); if err == nil { err = c.SetDeadline(time.Time{}) }", "Dial no longer removes the handshake deadline exactly once the handshake has succeeded: either the connection dies handshakeTimeout after it was dialed, or the wait for SETTINGS is unbounded again")
 		},
 	})
+}
+
+// blockFieldsSetByCaller: the fields of the client's header block state that
+// readStreamOwned stores before it calls readStream (and so before open runs).
+func (p *Prog) blockFieldsSetByCaller() map[string]bool {
+	if v, ok := p.memo["blockFieldsSetByCaller"]; ok {
+		return v.(map[string]bool)
+	}
+	out := map[string]bool{}
+	p.memo["blockFieldsSetByCaller"] = out
+	fd := p.decl("(*Conn).readStreamOwned")
+	if fd == nil {
+		return out
+	}
+	call := token.NoPos
+	inspectCalls(fd.Body, func(c *ast.CallExpr) {
+		if p.calleeOf(c) == "(*Conn).readStream" && !call.IsValid() {
+			call = c.Pos()
+		}
+	})
+	ast.Inspect(fd.Body, func(n ast.Node) bool {
+		as, ok := n.(*ast.AssignStmt)
+		if !ok || (call.IsValid() && as.Pos() > call) {
+			return true
+		}
+		for _, l := range as.Lhs {
+			t := squash(p.text(l))
+			if strings.HasPrefix(t, "c.block.") {
+				out[strings.TrimPrefix(t, "c.block.")] = true
+			}
+		}
+		return true
+	})
+	return out
 }
